@@ -96,7 +96,17 @@ def gen(rng, tier, idx):
         c['sched'] = _arrival_sched(rng, c['P'], idx, tier)
         return c
     if kind == 'minmax':
-        c = c01.gen(rng, tier, idx)
+        if rng.random() < 0.3:
+            # Grid on the driver's LayoutSwapper (3-D): the coordinates gathered with the
+            # blocks come from the swapper's current manager
+            c = c03.gen(rng, tier, idx)
+            while c['family'] != 'driver' or len(c['shape']) != 3:
+                c = c03.gen(rng, tier, idx)
+            c['mgr'] = 'swapper'
+            c['layouts'] = [[n, o] for g in c['groups'] for n, o in g]
+        else:
+            c = c01.gen(rng, tier, idx)
+            c['mgr'] = 'handler'
         c['kind'] = 'minmax'
         c['ops'] = []
         if c['dtype'] == 'int64':
@@ -140,7 +150,7 @@ def gen(rng, tier, idx):
         c = dict(kind='setup', P=total, nlayout=P, plot=plot, draw=rng.randrange(total) if plot else rng.randrange(P),
                  npts=npts, start=rng.choice(['flux_surface', 'v_parallel', 'poloidal']), walk=walk,
                  save_root=rng.randrange(total), save_folder=rng.choice([None, 'outdir']),
-                 save_step=rng.randint(1, 4), ncollect=rng.randint(1, 4),
+                 save_step=rng.randint(1, 4), ncollect=rng.randint(1, 4), preexisting=rng.choice([0, 0, 1, 3]),
                  fix_axis=rng.randrange(4))
         c['fix_val'] = rng.randrange(npts[c['fix_axis']])
         c['sched'] = _arrival_sched(rng, total, idx, tier)
@@ -261,7 +271,10 @@ def run_minmax(case, tape):
     def rank_fn(comm, rank):
         from pygyro.model.grid import Grid
         w = simworld.current()[0]
-        h = c01.build_handler(comm, case)
+        if case.get('mgr') == 'swapper':
+            h = c03.build_swapper(comm, dict(case, start=names[0]))
+        else:
+            h = c01.build_handler(comm, case)
         eta = [np.arange(n, dtype=float) for n in shape]
         G = cm.global_array(shape, case['dtype'], salt=5)
         grid = Grid(eta, [], h, names[0], comm, dtype=dt)
@@ -271,7 +284,9 @@ def run_minmax(case, tape):
             if grid.currentLayout != call['layout']:
                 grid.setLayout(call['layout'])
             lay = h.getLayout(call['layout'])
-            tab = ([int(x) for x in lay.dims_order], [int(x) for x in lay.starts], [int(x) for x in lay.ends])
+            k = len(h.nProcs)
+            tab = ([int(x) for x in lay.dims_order], [int(x) for x in lay.starts], [int(x) for x in lay.ends],
+                   [int(x) for x in lay.ranks[:k]])
             if call['fn'] in ('min', 'max'):
                 f = grid.getMin if call['fn'] == 'min' else grid.getMax
                 res = f(call['root'], call['axis'], call['fix'])
@@ -315,7 +330,10 @@ def run_minmax(case, tape):
                        for k, v in call['sel'].items()}
                 pos = 0
                 for r, res in enumerate(results):
-                    order, st, en = res[ci][0]
+                    order, st, en, coords = res[ci][0]
+                    if list(mpi_data[r]) != list(coords):
+                        raise OracleFail('wrong-block', dict(call=call, rank=r, why='process coordinates gathered with the block',
+                                                             got=list(mpi_data[r]), want=list(coords)))
                     slices = []
                     empty = False
                     for i, d in enumerate(order):
@@ -338,6 +356,8 @@ def run_minmax(case, tape):
                     if r != root and res[ci][1] is not None:
                         raise OracleFail('wrong-block', dict(call=call, rank=r, why='non-root got a value'))
         probes = {}
+        if case.get('mgr') == 'swapper':
+            probes['minmax_on_swapper_grid'] = 1
         for call in case['calls']:
             probes['call_' + call['fn']] = probes.get('call_' + call['fn'], 0) + 1
             if call['root'] != 0:
@@ -396,6 +416,11 @@ def run_setup(case, tape):
             probes['plot_only_rank'] = 1
         if case['save_folder'] is None:
             probes['setupSave_bcast'] = 1
+            want = 'simulation_%d' % case.get('preexisting', 0)
+            if f != want:
+                raise OracleFail('setupSave-folder', dict(got=f, want=want))
+            if case.get('preexisting'):
+                probes['setupSave_skips_existing_folders'] = 1
         if case['save_root'] != 0:
             probes['setupSave_root_nonzero'] = 1
         return dict(nontrivial=P > 1, probes=probes)
@@ -403,6 +428,8 @@ def run_setup(case, tape):
     with Scratch() as d:
         cwd = os.getcwd()
         os.chdir(d)
+        for i in range(case.get('preexisting', 0)):
+            os.makedirs(os.path.join(d, 'simulation_%d' % i))
         try:
             return execute(ID, P, case['sched'], tape, rank_fn, post)
         finally:
@@ -491,7 +518,7 @@ def shrink(case):
         if len(case['calls']) > 1:
             for i in range(len(case['calls'])):
                 yield dict(case, calls=[case['calls'][i]])
-        for c in c01.shrink(case):
+        for c in (c01.shrink(case) if case.get('mgr') != 'swapper' else []):
             c = dict(c)
             names = [n for n, _ in c['layouts']]
             if all(call['layout'] in names for call in case['calls']) and \
